@@ -70,12 +70,22 @@ pub fn gen_c12_base(src: &mut Src<'_>) -> C12Base {
 	} else if scoped {
 		let owned_key = src.chance(100);
 		fault_step = steps.len();
-		let sc = Step::Scoped { target, read, try_, owned_key, body: vec![BodyOp::Touch] };
+		// the closure itself may panic too: the releases that follow are then
+		// issued by the unwind handler, and one of them may panic in turn
+		let closure_panics = src.chance(70);
+		let body = if closure_panics { vec![BodyOp::Touch, BodyOp::Panic] } else { vec![BodyOp::Touch] };
+		let sc = Step::Scoped { target, read, try_, owned_key, body };
 		// the same call issued from a destructor while an earlier panic of the
 		// thread unwinds (the library then runs with std::thread::panicking())
 		let in_dtor = src.chance(60);
 		steps.push((0, if in_dtor { Step::UnwindingDrop { inner: Box::new(sc) } } else { sc }));
-		api = format!("scoped_{}{}{}", if try_ { "try_" } else { "" }, if read { "read" } else { "lock" }, if in_dtor { "@destructor-during-unwind" } else { "" });
+		api = format!(
+			"scoped_{}{}{}{}",
+			if try_ { "try_" } else { "" },
+			if read { "read" } else { "lock" },
+			if closure_panics { "+closure-panics" } else { "" },
+			if in_dtor { "@destructor-during-unwind" } else { "" }
+		);
 	} else {
 		let acq = steps.len();
 		steps.push((0, Step::Acquire { target, read, try_ }));
